@@ -215,12 +215,11 @@ def establish(w, case):
     h, cs, cp = w.new_client()
     cs.script_recv(('data', req))
     r = w.tick(h, [cs.fileno()], [])
-    assert r is False, 'establishment returned %r' % (r,)
+    if r is not False:
+        raise AssertionError('establishment returned %r' % (r,))
     us = w.upstreams[0][0] if w.upstreams else None
     for spec in case.get('extra', []):
         h.work.queue(memoryview(payload(spec)))
-    if case.get('extra') and not h.must_flush_before_shutdown:
-        h.must_flush_before_shutdown = True
     return h, cs, cp, us
 
 
@@ -245,14 +244,31 @@ def _trace(sock, n0):
 
 
 @functools.lru_cache(maxsize=64)
-def _init_state(setup, mx, extra_key):
-    """(kind, cbuf elements, ubuf elements, mustFlush) of the state the REAL establishment produces."""
-    case = {'setup': setup, 'max': mx, 'extra': list(_unkey(extra_key))}
+def _http_req_queued(setup, mx):
+    """what the REAL establishment queues for the upstream (boundary to C02: its content is a given here)"""
+    case = {'setup': setup, 'max': mx}
     args, opts, req, kind = _args(case)
     with sim.World(args=args, **opts) as w:
         h, cs, cp, us = establish(w, case)
-        return (kind, tuple(sim.elems(h.work)), tuple(_up_elems(h)), bool(h.must_flush_before_shutdown),
-                bool(h.reads_teared))
+        return tuple(_up_elems(h))
+
+
+def _init_state(setup, mx, extra_key):
+    """The established state the model starts from, fixed by the harness (NOT read from the
+    implementation, so that a wrong establishment shows up in the `init` observation):
+    kind, client buffer (the canned packet of proxy.http.responses + extra pieces), upstream
+    buffer, must_flush_before_shutdown, reads_teared."""
+    from proxy.http import responses as RS
+    kind = SETUPS[setup][3]
+    pkt = {
+        'tunnel': RS.PROXY_TUNNEL_ESTABLISHED_RESPONSE_PKT, '400': RS.BAD_REQUEST_RESPONSE_PKT,
+        '404': RS.NOT_FOUND_RESPONSE_PKT, '407': RS.PROXY_AUTH_FAILED_RESPONSE_PKT,
+        '502': RS.BAD_GATEWAY_RESPONSE_PKT,
+    }
+    cb = [bytes(pkt[setup])] if setup in pkt else []
+    cb += [payload(sp) for sp in _unkey(extra_key)]
+    ub = _http_req_queued(setup, mx) if setup == 'http' else ()
+    return (kind, tuple(cb), tuple(ub), kind == 'local', False)
 
 
 def _key(extra):
